@@ -889,6 +889,10 @@ func (o *Map) UnmarshalBinary(data []byte) error {
 	var vi varintConv
 	vi.reader = rd
 	m := *o
+	if m == nil {
+		m = Map{}
+		*o = m
+	}
 
 	for rd.Len() > 0 {
 		value, err := vi.read()
